@@ -119,7 +119,8 @@ def gen_sem_case(ch, tier, ft=None, n_probes=6, force=0.0, same_action=False):
         args = args0 if (same_action and ch.flag(0.5)) else G.gen_call(ch, world, a)
         if args is None:
             continue
-        st = G.gen_state(ch, world)
+        pb = ft.get("p_big_values", 0.0)
+        st = G.gen_state(ch, world, values=G.BIG_VALUES if pb and ch.flag(pb) else None)
         if force and ch.flag(force):
             env = {p: o for (p, _), o in zip(a["params"], args)}
             st = force_literals(a["pre"], env, st)
